@@ -124,7 +124,6 @@ def encErr (e : DErr) : Json :=
   let rootS : String := match root with
     | .user f x => s!"user:{f}:{x}"
     | .panicErr f x => s!"panic:{f}:{x}"
-    | .foreign => "foreign"
     | _ => "dig"
   let isB : Bool := match ch.getLast? with
     | some (.user f x) => e.errorsIs (.user f x)
@@ -147,10 +146,10 @@ def encVerdict : Verdict → Json
   | .fuel => Json.str "fuel"
 
 def encEvent : Event → Json
-  | .enter f x args => Json.mkObj [("e", "enter"), ("fn", jn f), ("x", jn x), ("args", Json.arr (args.map encVal).toArray)]
-  | .exit f x r => Json.mkObj [("e", "exit"), ("fn", jn f), ("x", jn x),
+  | .enter _ f x args => Json.mkObj [("e", "enter"), ("fn", jn f), ("x", jn x), ("args", Json.arr (args.map encVal).toArray)]
+  | .exit _ f x r => Json.mkObj [("e", "exit"), ("fn", jn f), ("x", jn x),
       ("r", Json.str (match r with | .ok => "ok" | .err => "err" | .panic => "panic"))]
-  | .cb op _ err rt => Json.mkObj [("e", "cb"), ("op", jn op), ("name", ""),
+  | .cb op _ _ err rt => Json.mkObj [("e", "cb"), ("op", jn op), ("name", ""),
       ("err", match err with | none => Json.str "nil" | some e => encErr e), ("rt", jn rt)]
 
 def encInfo (i : InfoOut) : Json :=
